@@ -5,7 +5,7 @@ import contracts.orderedset  # noqa: F401
 import contracts.identityset  # noqa: F401
 import contracts.lrucache  # noqa: F401
 from pyvc.contract import FUNCS
-from vlib.proof import run_proofs
+from vlib.proof import run_proofs, check_lemmas
 from vlib.bounded import run_bounded
 
 LEVEL = "proof"
@@ -14,6 +14,7 @@ KEYS = [k for k, c in FUNCS.items() if "C54" in c.props and c.proof and not c.ab
 
 def run(run, tier, seed, args):
     run_proofs(run, KEYS, tier, update_baseline=args.update_baseline, source_root=args.source_root)
+    check_lemmas(run, tier)
     if not args.source_root:
         run_bounded(run, [k for k in KEYS if FUNCS[k].harness], tier)
         try:
